@@ -70,6 +70,7 @@ func (pnf *PageNumberFinder) FindPagination(root *html.Node, pageURL *nurl.URL) 
 	pnf.baseURL = pageURL
 
 	url := *pageURL
+	url.User = nil // the parameter detector drops the user info as well
 	url.Path = strings.TrimSuffix(url.Path, "/")
 	url.RawPath = url.Path
 	strPageURL := stringutil.UnescapedString(&url)
